@@ -293,8 +293,9 @@ def decide(pid, mod, ctx: Ctx, tier, seed, t0) -> int:
         "wall_s": round(wall, 2),
         "violations": len(unknown),
     }
-    os.makedirs(os.path.join(VERIF_ROOT, "evidence"), exist_ok=True)
-    with open(os.path.join(VERIF_ROOT, "evidence", f"{pid}.json"), "w") as f:
+    evdir = os.environ.get("VERIF_EVIDENCE_DIR") or os.path.join(VERIF_ROOT, "evidence")
+    os.makedirs(evdir, exist_ok=True)
+    with open(os.path.join(evdir, f"{pid}.json"), "w") as f:
         json.dump(evidence, f, indent=1, default=str)
 
     # ---- report -------------------------------------------------------
